@@ -1,174 +1,6 @@
-# per-property configuration of ./check
-COMMON_TB = [
-    "symbolic cryptography (Dolev-Yao term algebra): go-jose signing/verification, SHA-2 are modelled, not verified",
-]
+# per-property configuration of ./check: one JSON file per property under props.d/
+import glob, json, os
 
-PROPS = {
-    "C01": {
-        "proof_module": "OidcModel.Proofs.C01",
-        "theorems": ["C01.c01_holds", "C01.c01_sound", "C01.c01_complete_margin", "C01.c01_sound_all",
-                     "C01.c01_complete_all", "C01.rpVerifyAccessToken_ok", "C01.getHashAlgorithm_eq",
-                     "C01.tRound_second_bounds"],
-        "cases": {"quick": 3000, "thorough": 60000},
-        "rule": "ID tokens really signed (RSA/EC/Ed25519) starting from a valid token with 0-3 mutated dimensions out of 12 "
-                "(iss, sub, aud shape, azp, exp/iat/auth_time at boundary +-2s, nonce, acr, at_hash variants, untrusted signer) x verifier "
-                "configuration (offset, max iat age, max auth age, nonce fn, ACR verifier, allow-list); real rp.VerifyIDToken / rp.VerifyTokens; "
-                "non-trivial = outcome class other than the modal one; distinct = outcome class x input with case id and timestamps removed",
-        "trivial_class": r"ok\|ok\|ok",
-        "trusted_base": COMMON_TB + ["JSON decoding of the payload is taken from the real codec (oracle; see C12)",
-                                     "signature validity is symbolic here; key selection is C02's subject"],
-        "assumptions": ["instants within years 1..9999 (Go time arithmetic exact)",
-                        "a call is compared only through its [t0,t1] clock bracket; every time guard is monotone in now"],
-    },
-    "C02": {
-        "proof_module": "OidcModel.Proofs.C02",
-        "theorems": ["C02.c02_rp", "C02.c02_accessToken", "C02.c02_idTokenHint", "C02.c02_assertion",
-                     "C02.parse_and_signature_sound", "C02.verifySignature_sound", "C02.findMatchingKey_eq_spec",
-                     "C02.findMatchingKey_ok", "C02.findMatchingKey_ambiguous"],
-        "cases": {"quick": 4000, "thorough": 40000},
-        "rule": "part 1: oidc.FindMatchingKey on key sets of 1-4 keys over (kid in {'',a,b}) x (use in {'',sig,enc}) x (RSA,EC,OKP) x header kid x 6 algs "
-                "(thorough: exhaustive for sets of <=2 keys) compared with the statement's selection rule; part 2: genuinely signed tokens with one of 10 "
-                "serialisation manipulations (alg swap, HMAC-with-public-key, foreign key, truncated signature, replaced payload, extra segments, flattened / "
-                "general JSON JWS, JSON smuggling, re-encoding) through rp.VerifyIDToken (remote JWKS), op.VerifyAccessToken, op.VerifyIDTokenHint (OpenIDKeySet), "
-                "op.VerifyJWTAssertion (per-client key registry); non-trivial = outcome class other than the modal one",
-        "trivial_class": r"err:ErrKeyNone\|err:ErrKeyNone\|ok",
-        "exhaustive": {"thorough": True},
-        "trusted_base": COMMON_TB + ["go-jose parsing (which signatures/headers/payload a string contains) is taken from the real library as oracle",
-                                     "FindMatchingKey and the three KeySet implementations are hand-modelled; tied by this correspondence stream"],
-        "assumptions": ["signature terms are symbolic: forging a signature without the key is impossible by definition of the term algebra"],
-    },
-    "C12": {
-        "proof_module": "OidcModel.Proofs.C12",
-        "theorems": ["C12.c12_registered_wins", "C12.c12_custom_survives", "C12.c12_merge_monitor", "C12.c12_audience_exact",
-                     "C12.c12_time_exact", "C12.c12_bool_exact", "C12.c12_seal_roundtrip", "C12.c12_seal_monitor",
-                     "Cfb.dec_enc", "Cfb.unseal_seal", "B64.decode_encode"],
-        "cases": {"quick": 6000, "thorough": 150000},
-        "rule": "(a) 7 claims/response types with random registered fields and custom-claim maps whose keys collide with registered names half of the time: "
-                "json.Marshal, top-level comparison with merge(registered, custom), json.Unmarshal back; (b) Audience / Time / Bool decoders on a pool of 36 JSON "
-                "documents + random integers; (c) crypto.EncryptAES/DecryptAES for key sizes 16/24/32 and plaintext lengths 0..300 (thorough: ..4096), the model "
-                "re-computes the ciphertext from the drawn iv and AES's block evaluations (CFB consistency) and decrypts under a second key; "
-                "non-trivial = everything but the modal class; distinct = class x input",
-        "trivial_class": r"seal::ok",
-        "trusted_base": ["encoding/json (generic decoding, struct tags, omitempty), time.Parse(RFC3339) and AES block encryption are oracles",
-                         "the codec is hand-modelled (top-level merge, decoders); tied by this correspondence stream, not regenerated",
-                         "'only under the same key' assumes AES is a pseudo-random permutation; it is sampled, not proved (partial)",
-                         "Locale(s) and SpaceDelimitedArray decoders are exercised in the C09 stream only"],
-        "assumptions": ["block function of fixed output size 16 (any function: the CFB theorem does not use AES)"],
-    },
-    "C04": {
-        "proof_module": "OidcModel.Proofs.C04",
-        "theorems": ["C04.authorizeCodeClient_ok", "C04.validateAccessTokenRequest_ok", "C04.legacyCodeExchange_ok",
-                     "C04.authorizeCodeChallenge_ok", "C04.validateGrantType_iff"],
-        "cases": {"quick": 250, "thorough": 4000},
-        "rule": "random histories (4..18 ops quick, ..44 thorough) of authorize / login / callback / code exchange / refresh over 7 clients "
-                "(confidential basic x2, public native, client_secret_post, private_key_jwt, without refresh grant, without code grant) on both routers, "
-                "with replays, cross-client redemption, wrong / missing redirect_uri and code_verifier, S256 and plain challenges, wrong secrets, forged / expired / "
-                "foreign assertions, garbage codes, and an injected DeleteAuthRequest failure; every line is one HTTP request against the real handlers; the "
-                "model (regenerated decision functions + hand-written stateful shell) must produce the same response, the reference monitor judges the observed one; "
-                "non-trivial = not the modal class; distinct = class x input",
-        "trivial_class": r"authorize:login",
-        "trusted_base": COMMON_TB + ["the handler skeletons (tokensHandler, withClient, CodeExchange) and the storage effects of CreateTokenResponse are hand-modelled (Model/Flow.lean); tied by this stream",
-                                     "reference storage refstore as the meaning of a contract-fulfilling op.Storage",
-                                     "history-level single-use follows from the modelled deletion; see Proofs/C04 for what is proved at function level"],
-        "assumptions": ["codes and refresh tokens are compared through the harness's symbol table (real string <-> label)"],
-    },
-    "C07": {
-        "proof_module": "OidcModel.Proofs.C07",
-        "theorems": ["C07.validateRefreshTokenScopes_ok", "C07.validateRefreshTokenRequest_ok", "C07.legacyRefreshToken_ok", "C07.scope_chain_narrows"],
-        "cases": {"quick": 250, "thorough": 4000},
-        "rule": "the same histories as C04 with refresh chains favoured: own / foreign client, subset / superset / disjoint / empty scope lists, replayed (rotated) "
-                "and unknown refresh tokens, refresh support enabled and disabled, both routers; journal entries of the storage calls are part of the observation",
-        "trivial_class": r"authorize:login",
-        "trusted_base": COMMON_TB + ["handler skeletons and rotation in the reference storage are hand-modelled; tied by this stream"],
-        "assumptions": [],
-    },
-    "C14": {
-        "proof_module": "OidcModel.Proofs.C14",
-        "theorems": ["C14.c14_assertion_sound", "C14.c14_private_key_client", "C14.c14_request_object_sound", "C14.verifyJWTAssertion_paths"],
-        "cases": {"quick": 3000, "thorough": 60000},
-        "rule": "(a) assertions over iss / sub / aud / iat / exp (boundaries +-2s) / kid / signing key (own, another client's, unknown) against a registry in which "
-                "every client has its OWN keys, verifier settings (max age, offset, default or custom subject check), through the real op.VerifyJWTAssertion; "
-                "(b) assertions minted by client.NewSignerFromPrivateKeyByte + client.SignedJWTProfileAssertion for RSA / EC / Ed25519 keys; (c) request objects "
-                "(own / foreign / unknown issuer, client_id agreeing or not, audience, response_type, 7 overridable parameters, manipulated serialisations) through "
-                "the real op.ParseRequestObject with the resulting parameters observed; non-trivial = not the modal class",
-        "trivial_class": r"reqobj:err",
-        "trusted_base": COMMON_TB + ["JSON decoding of assertion / request-object payloads is taken from the real codec",
-                                     "completeness ('helper assertions are accepted') is checked by the correspondence stream only, not proved"],
-        "assumptions": ["no client is registered with an empty client id"],
-    },
-    "C05": {
-        "proof_module": "OidcModel.Proofs.C05",
-        "theorems": ["C05.legacyVerifyClient_ok", "C05.withClient_grant", "C05.authorizeTokenExchangeClient_ok",
-                     "C05.authorizeClientCredentialsClient_ok", "C05.secret_ok", "C04.authorizeCodeClient_ok",
-                     "C07.authorizeRefreshClient_ok", "C14.c14_private_key_client"],
-        "cases": {"quick": 2500, "thorough": 40000},
-        "rule": "one request per case against a fresh provider: router x op.Config flags (post, private_key_jwt, refresh) x storage capabilities (client credentials, "
-                "token exchange, device) x endpoint (token with each of 6 grants, introspection, revocation, device_authorization) x 8 registrations (basic x2, public, "
-                "post, private_key_jwt, without refresh grant, without code grant, code+refresh only) x presentation (right, wrong secret, none, id only, post body, "
-                "malformed percent-escape in Basic, forged / expired assertion, unknown client, another client's credentials); the artefacts (code, refresh token, "
-                "device code, subject token) are valid for the named client so that only authentication and grant registration decide; non-trivial = not the modal class",
-        "trivial_class": r".*refused:invalid_client",
-        "trusted_base": COMMON_TB + ["the request dispatch (tokensHandler / Exchange switch, ClientIDFromRequest, ParseTokenRevocationRequest) is not modelled: it is covered by the monitor on the real handlers only"],
-        "assumptions": ["presenting a client_secret_basic secret in the POST body is not treated as a violation (the code accepts it)"],
-    },
-    "C08": {
-        "proof_module": "OidcModel.Proofs.C08",
-        "theorems": ["Res.honoured_implies_live", "Res.dead_step", "Res.dead_not_honoured", "Res.revocation_sticks", "Res.revoke_kills",
-                     "Res.foreign_revoke_refused", "Res.unknown_revoke_ok", "Res.inactive_discloses_nothing"],
-        "cases": {"quick": 250, "thorough": 5000},
-        "rule": "random histories (5..20 ops quick, ..44 thorough) on both routers mixing token issuance through real code flows (opaque and JWT access tokens, 5 clients), "
-                "expiry, userinfo, introspection (owner / foreign / public / assertion callers), revocation (hints none / access_token / refresh_token / bogus; owner / foreign / "
-                "public), end_session with the ID token as hint, token exchange with the access token as subject; presented strings are genuine, bit-flipped (really decrypted, "
-                "so CFB malleability is exercised), re-encrypted under another key, JWTs of a foreign key, garbage; non-trivial = not the modal class",
-        "trivial_class": r"issue:.*",
-        "trusted_base": COMMON_TB + ["the resource endpoints are hand-modelled (Model/Resource.lean) over the reference storage's token table; tied by this stream",
-                                     "what Decrypt makes of a presented string is taken from the real AES code (oracle); the theorems hold for ANY plaintext"],
-        "assumptions": ["token ids are unique in the storage (fresh counters)"],
-    },
-    "C10": {
-        "proof_module": "OidcModel.Proofs.C10",
-        "theorems": ["C10.c10_all_call_sites_checked", "C10.c10_fail_closed", "C10.c10_success_needs_all", "C10.runCalls_error_of_fails"],
-        "cases": {"quick": 0, "thorough": 0},
-        "rule": "fault enumeration: for each of 15 flows (authorize, callback code / implicit, token endpoint x 6 grants, device_authorization, userinfo, introspection, "
-                "revocation, end_session, keys) on both routers, learn the journal length n of the fault-free request, then re-run it from a fresh provider with the k-th "
-                "storage call failing for EVERY k = 1..n+1 and each error kind (plain error, context.DeadlineExceeded, oidc.Error); quick = 2 request variants, thorough = 12 "
-                "(public / confidential client, opaque / JWT access tokens, scope sets, SetUserinfoFromRequest capability); non-trivial = a fault that hit a call; distinct = flow x router x failed method x status",
-        "trivial_class": r".*:beyond:.*",
-        "exhaustive": {"quick": True, "thorough": True},
-        "trusted_base": ["the call-site extractor of factgen (storagecalls.go): which statements count as 'the error is examined' (next statement tests or returns it)",
-                         "the abstract handler model (sequence of calls in the Except monad) is connected to the code only through that extracted fact list and the fault enumeration",
-                         "refstore journal + k-th-call fault injection"],
-        "assumptions": ["introspection's required answer to a storage failure is 'not active' (the code answers 200 {active:false})"],
-    },
-    "C15": {
-        "proof_module": "OidcModel.Proofs.C15",
-        "theorems": ["C15.c15_validate_sound", "C15.c15_response_declares_contents", "C15.c15_unissuable_type_is_error",
-                     "C05.authorizeTokenExchangeClient_ok"],
-        "cases": {"quick": 2000, "thorough": 30000},
-        "rule": "one token-exchange request per case against a fresh provider (both routers, exchange storage on/off): subject token kind (opaque / JWT access token, refresh token, "
-                "ID token, expired / revoked access token, expired ID token, JWT of a foreign key, rotated refresh token, garbage) x declared type (right, other, jwt, unknown, missing) "
-                "x requested type (absent, access, refresh, id, jwt, unknown) x actor token (none, live, dead, garbage) x scope lists (incl. address, impersonation) x presenter "
-                "(right secret, wrong secret, client without the grant, public client) x blocked user; the returned token is classified by really decrypting / verifying it and looked up in "
-                "the reference storage; non-trivial = not the modal class",
-        "trivial_class": r".*:invalid_request",
-        "trusted_base": COMMON_TB + ["subject / actor token resolution (GetTokenIDAndSubjectFromToken) and the storage policy are ORACLES of the model (universally quantified in the theorems); "
-                                     "the harness supplies the reference storage's ground truth for them",
-                                     "token minting (CreateAccessToken / CreateIDToken) is hand-modelled as 'returns a non-empty token of the requested kind'"],
-        "assumptions": ["'live' = known to the reference storage, unexpired, unrevoked (access / refresh tokens); verifies and unexpired (ID tokens)"],
-    },
-    "C06": {
-        "proof_module": "OidcModel.Proofs.C06",
-        "theorems": ["C06.c06_id_token_claims_verify", "C06.c06_exp_iat_bracket", "C06.c06_absent_auth_time_stays_absent", "C06.c06_audience_azp",
-                     "C06.c06_access_token_claims", "C06.c06_hash_binding", "C06.asTime_fromTime_bounds"],
-        "cases": {"quick": 1200, "thorough": 20000},
-        "rule": "one issuance per case against a fresh provider served over a real HTTP listener: flows (code, implicit id_token token / id_token, refresh, device, token exchange -> id_token, "
-                "jwt-bearer, client_credentials) x routers x signing keys / algorithms (RS256, RS384, PS256, ES256, ES384, EdDSA) x opaque / JWT access tokens x client clock skew (0, 5 s, 2 min) x "
-                "ID-token lifetimes x scope sets x userinfo-assertion flag x storage variants (userinfo from scopes / from request) x a retired key still published; every ID token goes through the REAL "
-                "rp.VerifyTokens / rp.VerifyIDToken with a remote key set fetched from the provider's /keys and the algorithms its discovery document advertises, every JWT access token through "
-                "op.VerifyAccessToken, every opaque token is really decrypted; non-trivial = not the modal class",
-        "trivial_class": r"code:RS256:tokens:opaque",
-        "trusted_base": COMMON_TB + ["the verdicts of the real verifiers enter the monitor as observed facts",
-                                     "CreateIDToken / CreateAccessToken / CreateTokenResponse themselves are not translated: the theorems are about the claim constructors they call"],
-        "assumptions": ["instants after 1970-01-01T00:00:01Z, clock skew >= 0 (theorem hypotheses)"],
-    },
-}
+PROPS = {}
+for _p in sorted(glob.glob(os.path.join(os.path.dirname(os.path.abspath(__file__)), "props.d", "C*.json"))):
+    PROPS[os.path.basename(_p)[:-5]] = json.load(open(_p))
